@@ -1001,3 +1001,22 @@ def splitns_names(H):
             H.prove(e is None and tuple(r) == want, "splitns.namespace_and_full_local_name", detail=f"{q!r}: {r!r} {e!r}")
             r, e = H.catch(strip_ns, q)
             H.prove(e is None and r == local, "strip_ns.full_local_name", detail=f"{q!r}: {r!r} {e!r}")
+
+
+@obligation(("C06", "C07", "C02"), "meta.number_or_percentage", functions=["svg_meta.number_or_percentage"])
+def number_or_percentage_spellings(H):
+    """number_or_percentage reads every spelling of an SVG number - the ones picosvg itself writes included (exponent notation for
+    magnitudes below 1e-4, which a second pass reads back) - and a percentage as that fraction of the scale; anything else is a
+    ValueError, never a silently different number."""
+    from picosvg.svg_meta import number_or_percentage
+
+    scale = H.real("scale")
+    for text, want in (("5e-05", 5e-05), ("2.5E-7", 2.5e-7), ("1e2", 100.0), ("-1.5e+1", -15.0), ("-.5", -0.5), ("+3", 3.0), ("7.", 7.0), ("0.25", 0.25), ("12", 12.0)):
+        r, e = H.catch(number_or_percentage, text, scale)
+        H.prove(e is None and r == want, "number_or_percentage.every_number_spelling", detail=f"{text!r}: {r!r} {e!r}")
+    for text, frac in (("50%", 0.5), ("0%", 0.0), ("12.5%", 0.125), ("-10%", -0.1), ("150%", 1.5)):
+        r, e = H.catch(number_or_percentage, text, scale)
+        H.prove(e is None and H.close(r, frac * scale), "number_or_percentage.percentage_of_the_scale", detail=f"{text!r}: {r!r} {e!r}")
+    for text in ("", "abc", "5e", "1.2.3", "%"):
+        r, e = H.catch(number_or_percentage, text, scale)
+        H.prove(isinstance(e, ValueError), "number_or_percentage.malformed_is_ValueError", detail=f"{text!r}: {r!r} {e!r}")
